@@ -85,6 +85,21 @@ def check(run, ctx):
     t = tests[0]
     explicit = isinstance(t, ast.Compare) and len(t.ops) == 1 and isinstance(t.ops[0], (ast.IsNot, ast.Is)) and isinstance(t.comparators[0], ast.Constant) and t.comparators[0].value is None
     (run.ok(A3, "Orchestrator config provided?", norm(t)) if explicit else run.finding(A3, "Orchestrator.__init__", f"truthiness:{norm(t)}", f"`if {norm(t)}` treats an explicitly passed empty configuration as absent and auto-discovers <project_root>/.thailint.yaml instead: the library (which passes config=...) and the CLI (which assigns orchestrator.config afterwards) then lint with different settings, and so do --parallel workers", oi.loc))
+    # every Orchestrator(config=E): E is the loaded mapping itself, passed through unchanged (no `E or None`, no conditional)
+    n_pass = 0
+    for f in sorted(repo.funcs.values(), key=lambda x: x.qual):
+        if not f.module.name.startswith("src."):
+            continue
+        for n in ast.walk(f.node):
+            if isinstance(n, ast.Call) and call_name(n) == "Orchestrator":
+                for k in n.keywords:
+                    if k.arg == "config":
+                        n_pass += 1
+                        if isinstance(k.value, (ast.Name, ast.Attribute)):
+                            run.ok(A3, f"{f.qual.replace('src.', '', 1)} Orchestrator(config=...)", f"config={norm(k.value)} passed through unchanged")
+                        else:
+                            run.finding(A3, f"{f.qual.replace('src.', '', 1)}", f"config-arg:{norm(k.value)}", f"Orchestrator(config={norm(k.value)}): the loaded configuration is transformed on the way in, so an explicitly given empty configuration (empty --config/config_file) becomes 'absent' and the project root's own file is auto-discovered instead - the CLI, which assigns orchestrator.config, keeps the empty one", f"{f.module.rel}:{n.lineno}")
+    run.require(n_pass >= 2, "Orchestrator(config=...) call sites not found (library entry point and parallel worker)")
     cmds = clifacts.commands(repo)
     nofilter = sorted({c.name for c in cmds if not c.preds})
     (run.ok(A3, "CLI filters", f"{len(cmds)} commands filter by rule id") if not nofilter else run.finding(A3, "cli", f"unfiltered:{nofilter}", f"commands {nofilter} do not filter by rule id", "src/cli/linters"))
